@@ -289,6 +289,8 @@ class Inliner:
                 return []
             tgt = copy.deepcopy(mode[1])
             val = ret.value if ret.value is not None else ast.Constant(value=None)
+            if ast.dump(tgt).replace("Store()", "Load()") == ast.dump(val):
+                return []  # `x = x`
             # `x = y` where y is a callee local that the caller never uses: avoid the alias by renaming
             return [ast.Assign(targets=[tgt], value=val)]
         new, _term = _conv(body, repl)
